@@ -204,7 +204,7 @@ func c09Run(c *Ctx) {
 			variants = append(variants, string(kr[:i])+string(kr[i]+1)+string(kr[i+1:])) // neighbouring code point
 		}
 		// canonically equivalent respellings must NOT be keywords unless identical
-		variants = append(variants, strings.ReplaceAll(k, "য়", "য়"))
+		variants = append(variants, strings.ReplaceAll(k, "\u09df", "\u09af\u09bc"), strings.ReplaceAll(k, "\u09cb", "\u09c7\u09be"))
 		for _, v := range variants {
 			if !c.Mine() {
 				continue
@@ -217,7 +217,7 @@ func c09Run(c *Ctx) {
 	r := c.Rand("long")
 	n := c.N(15000, 300000)
 	pieces := append([]string{}, A...)
-	pieces = append(pieces, "//", "/*", "*/", "\"x\ny\"", "/* c\nc */", "// c\n", "abc", "12.5", "১২.৩", "==", "!=", "<=", ">=", "<<", ">>", "**", "&&", "||", "1.", ".5", "1..2", "a.b", "\n\n")
+	pieces = append(pieces, "/*/ x */", "/***/", "/**/", "/* * / */", "/*//*/", "//*", "/*\n*/", "/* \" */", "\"/*\"", "//", "/*", "*/", "\"x\ny\"", "/* c\nc */", "// c\n", "abc", "12.5", "১২.৩", "==", "!=", "<=", ">=", "<<", ">>", "**", "&&", "||", "1.", ".5", "1..2", "a.b", "\n\n")
 	pieces = append(pieces, kws...)
 	for k := 0; k < n; k++ {
 		var b strings.Builder
